@@ -5,21 +5,27 @@ PROP = dict(
                  env=dict(quick=dict(VERIF_CASES=1500), thorough=dict(VERIF_CASES=40000))),
         ],
         rule="case = a group of 1-3 calls of one REAL function on neighbouring / consecutive inputs: CalculateLendReward, CalculateBorrowInterest, "
-             "CalculateStableInterest, Rewardskeeper.CalculationOfRewards (float path; x, y, math.Pow(x,y) recorded as IEEE bit patterns), or 7-9 ascending "
+             "CalculateStableInterest, Rewardskeeper.CalculationOfRewards (float path; x, y, math.Pow(x,y) recorded as IEEE bit patterns), or (kind R) one set of "
+             "rate parameters sent through every validation path (AssetRatesParams.Validate, AssetRatesPoolPairs.Validate, both proposals' ValidateBasic, "
+             "GenesisState.Validate, the governance handler -> keeper.AddAssetRatesParams, keeper.AddAssetRatesPoolPairs) and then 7-9 ascending "
              "utilisations (0, 1 ulp, kink-1ulp, kink, random, 1) through GetUtilisationRatio/GetBorrowAPRByAssetID(both kinds)/GetLendAPR on a lend-pool fixture; "
-             "inputs from a lattice (amounts 1..2^62, rates 0..10 incl. 1e-18, seconds 0,1,6,86400,1y,30y, indices 0.005..2) mixed with random; "
-             "non-trivial = some call returned ok with a non-zero amount (or a rate was computed); distinct by digest of the case's lines",
+             "case 0 is always the regression case of C18-F1 (UOptimal = 1); "
+             "inputs from a lattice (amounts 1..2^62, rates 0..10 incl. 1e-18, seconds 0,1,6,86400,1y,30y, indices 0.005..2, UOptimal 0, 1e-18 .. 1-1e-18, 1, 1+1e-18, 2) mixed with random; "
+             "non-trivial = some call returned ok with a non-zero amount (or the handler accepted the parameters / a rate was computed); distinct by digest of the case's lines",
         modelled=["math.Pow (its observed result is an input of the model; hypotheses H1-H3 are premises of the c18_cmp_* theorems and H1-H4 are tested on every observed point, not proved)",
                   "strconv.ParseFloat / FormatFloat as exact round-to-nearest-even (Lib/F64.v), validated bit-for-bit by the correspondence run"],
         assumptions=["principal 0..2^63-1, rates >= 0, global index > 0 (a zero index makes Quo panic; the model returns Panic too)",
-                     "rate-model parameters 0 < UOptimal < 1, slopes >= 0, 0 <= reserve factor <= 1 (UOptimal >= 1 is the known finding C18-F1)",
+                     "rate-model parameters are those accepted by AssetRatesParams.Validate (model: Rates.rates_valid, compared with the real Validate on every R case); "
+                     "c18_rate_defined additionally bounds each rate parameter below 2^128 ulps (beyond that the 315-bit Dec limit can panic)",
+                     "InitGenesis, the v2 store migration and the upgrade handlers write rate parameters with keeper.SetAssetRatesParams without validation (outside the theorems; the harness "
+                     "forces such parameters into the store and still compares the rate functions with the model)",
                      "c18_cmp_subadditive is proved only up to the exact core (c18_cmp_subadditive_partial); the bound through the float roundings is judged on the implementation by predicate only",
                      "sub-additivity of the index accrual holds with slack amt*(4 + H/gi1 + H/gi2 + H/gi12) ulps, not one ulp (c18_idx_excess_witness)"],
     )
 
 MANIFEST = dict(
-    level_text="All clauses of C18 proved in Coq over an exact model of the Dec arithmetic and of binary64 rounding: non-negativity, zero over zero time, monotonicity in time/rate/principal for the index accrual, stable interest and (under the tested math.Pow hypotheses H1-H3) the float compound accrual; sub-additivity over consecutive intervals with an explicit principal-proportional slack (a witness shows one-ulp slack is false); tracker carry; rate model base value, monotonicity across the kink, kink continuity bound, lend <= borrow. UOptimal = 1 is proved to panic at full utilisation and is a known finding. Tied to /repo by a differential run of the real keeper functions on every check (float path reproduced bit for bit).",
+    level_text="All clauses of C18 proved in Coq over an exact model of the Dec arithmetic and of binary64 rounding: non-negativity, zero over zero time, monotonicity in time/rate/principal for the index accrual, stable interest and (under the tested math.Pow hypotheses H1-H3) the float compound accrual; sub-additivity over consecutive intervals with an explicit principal-proportional slack (a witness shows one-ulp slack is false); tracker carry; rate model over the parameters that AssetRatesParams.Validate accepts: defined on all of [0,1], base value, monotonicity across the kink, kink continuity bound, lend <= borrow. Tied to /repo by a differential run of the real keeper functions and of every validation path on every check (float path reproduced bit for bit).",
     design_ref="DESIGN.md section 4 C18",
-    level_note="Trusted: Coq kernel, extraction, OCaml runner, Go harness. math.Pow hypotheses H1-H4 are tested, not proved. No axioms (Closed under the global context).",
+    level_note="Trusted: Coq kernel, extraction, OCaml runner, Go harness. math.Pow hypotheses H1-H4 are tested, not proved. No axioms (Closed under the global context). C18-F1 (UOptimal >= 1 accepted) is repaired: fixes/C18-F1.",
     technique="Coq proof (monotonicity / rounding bounds over exact Dec and binary64 models) + model/implementation correspondence run",
 )
